@@ -6,13 +6,14 @@ RULE = ("0-30 dynamic entries over standard, string-valued (NEEDED/SONAME/RPATH/
         "values, DT_NULL at any position, added through one accessor with queries interleaved, then read through the same and a "
         "fresh accessor, in all 4 configurations; section bytes compared with the ABI encoding. Non-trivial = at least 3 entries "
         "and at least one query issued between two additions on the same accessor.")
-ASSUMPTIONS = ["tags below 2^31 (d_tag is signed)", "values of DT_NULL/DT_SYMBOLIC/DT_TEXTREL/DT_BIND_NOW are ignored by the ABI and stored as 0",
+ASSUMPTIONS = ["tags below 2^31 in ELF32 and below 2^63 in ELF64 (d_tag is signed)", "values of DT_NULL/DT_SYMBOLIC/DT_TEXTREL/DT_BIND_NOW are ignored by the ABI and stored as 0",
                "string table below 2^32 bytes"]
 KEEP_PREFIX = 8
 
 NOVAL = {0, 16, 22, 24}
 STRTAGS = {1, 14, 15, 29}
 STD_TAGS = [2, 3, 4, 5, 6, 7, 8, 9, 10, 11, 12, 13, 17, 18, 19, 20, 21, 23, 25, 26, 27, 28, 30, 32, 16, 22, 24]
+WIDE_TAGS = [2**32, 2**33, 0x7fffffff00000000, 2**32 + 1, 2**62, 0x6ffffef500000000]      # ELF64 only: d_tag is 64 bits wide
 OS_TAGS = [0x6000000D, 0x6ffffef5, 0x6ffffff0, 0x6ffffffe, 0x6fffffff, 0x70000001, 0x7fffffff, 0x6ffffffb]
 
 
@@ -155,6 +156,8 @@ def generate(rng, tier):
                     ops.append(("adds", 0, rng.choice(sorted(STRTAGS)), rname(rng, 1, 12)))
                 elif r < 0.45:
                     ops.append(("add", 0, rng.choice(OS_TAGS), rval(rng, 64)))
+                elif r < 0.55 and w == 64:
+                    ops.append(("add", 0, rng.choice(WIDE_TAGS), rval(rng, 64)))
                 else:
                     ops.append(("add", 0, rng.choice(STD_TAGS), rval(rng, 64)))
             if rng.random() < 0.35:
